@@ -1,5 +1,5 @@
 """C14 phenotyping and breeding-value estimation (spec/Phenotyping*.tla)."""
-import math, random
+import copy as _copy, math, random
 import numpy as np
 from .. import tlc, cases
 from ..core import time_limit
@@ -99,6 +99,12 @@ def trial_case(cid, rng, true_pt=False, zero_var=False):
                 c["mixed"] = mixed
                 prot = G_E_Phenotyping(gm, nenv=nenv, nrep=np.array(nrepv), var_env=vv["env"], var_rep=vv["rep"], var_err=vv["err"],
                                        rng=srng if not zero_var else np.random.default_rng(rng.randrange(2 ** 32)))
+                if rng.random() < 0.4:
+                    # the trial is run by a COPY of the configured protocol (shallow or deep; a copy carries the settings of
+                    # its original and draws from the same generator)
+                    how = rng.choice(["deepcopy", "deepcopy()", "copy", "copy()"])
+                    prot = {"deepcopy": _copy.deepcopy, "copy": _copy.copy, "deepcopy()": lambda o: o.deepcopy(), "copy()": lambda o: o.copy()}[how](prot)
+                    c["copied"] = how
                 if rng.random() < 0.35:
                     # the protocol object has already been used on a population of another size
                     pg2 = make_pop(n + rng.randrange(1, 4), p, T, rng)[0]
@@ -144,6 +150,10 @@ def struct_case(cid, rng):
                 return float(arr[0]) if len(set(z[key])) == 1 and rng.random() < 0.5 else arr
             g_ = np.random.default_rng(rng.randrange(2 ** 32)) if cid % 2 else np.random.RandomState(rng.randrange(2 ** 32))
             prot = G_E_Phenotyping(gm, nenv=nenv, nrep=np.array(nrepv), var_env=vv("env"), var_rep=vv("rep"), var_err=vv("err"), rng=g_)
+            if cid % 3 != 0:
+                how = ["deepcopy", "deepcopy()", "copy", "copy()"][(cid // 3) % 4]
+                prot = {"deepcopy": _copy.deepcopy, "copy": _copy.copy, "deepcopy()": lambda o: o.deepcopy(), "copy()": lambda o: o.copy()}[how](prot)
+                c["copied"] = how
             df = prot.phenotype(pg)
             tcols = ["y%d" % t for t in range(T)]
             gof = {nm: g[i] for i, nm in enumerate(names)}
